@@ -16,7 +16,7 @@ import (
 
 func init() {
 	register(&Prop{ID: "C01", Run: runC01, Replay: replayBySub(map[string]replayFn{
-		"bytes": c01Replay, "macro": c01Replay, "tokens-exec": c01Replay, "tokens-sdl": c01Replay, "families": c01ReplayFamily,
+		"bytes": c01Replay, "macro": c01Replay, "tokens-exec": c01Replay, "tokens-sdl": c01Replay, "families": c01ReplayFamily, "families-two-sources": c01ReplayTwo,
 	}), Assumptions: []string{
 		"inputs outside the listed alphabets and length bounds are not explored",
 		"running time is measured as a deterministic step count (function entries + loop iterations of the instrumented repository code); time spent inside the standard library is only bounded by a generous wall-clock guard (60 s) on the size families",
